@@ -22,6 +22,8 @@ PY_SEMANTICS = [
 def finish(args, P, results, bounded, known, ax_n, t0, seed):
     from .main import finding_matches
     prop = args.prop
+    soft = set(getattr(P, "prove_thorough", ()))
+    not_completed = []
     violations = []
     known_hits = []
     undecided = []
@@ -44,6 +46,12 @@ def finish(args, P, results, bounded, known, ax_n, t0, seed):
         elif r["status"] == "out_of_reach":
             out_of_reach.append((r["key"], r.get("reason")))
             fn["reason"] = r.get("reason")
+        elif r["status"] == "budget_exceeded":
+            fn["reason"] = r.get("reason")
+            if r["key"] in soft:
+                not_completed.append({"function": r["key"], "reason": r.get("reason")})
+            else:
+                out_of_reach.append((r["key"], r.get("reason")))
         per = {}
         for o in r["obligations"]:
             solver_time += o.get("time") or 0.0
@@ -64,6 +72,10 @@ def finish(args, P, results, bounded, known, ax_n, t0, seed):
                 else:
                     n_obl += 1
                     violations.append((o, r))
+            elif r["key"] in soft:
+                # a thorough-only target: an obligation the solvers gave up on is reported, it does not decide the exit code
+                n_obl += 1
+                not_completed.append({"function": r["key"], "obligation": o["name"], "reason": str(o.get("reason"))[:200]})
             else:
                 n_obl += 1
                 undecided.append((o, r))
@@ -123,6 +135,8 @@ def finish(args, P, results, bounded, known, ax_n, t0, seed):
         out_lines.append(f"UNDECIDED obligation={o['name']} function={r['key']} reason={str(o.get('reason'))[:200]}")
     for key, why in out_of_reach:
         out_lines.append(f"OUT-OF-REACH function={key} reason={why}")
+    for nc in not_completed[:20]:
+        out_lines.append(f"NOT-COMPLETED (thorough-only target, does not decide the exit code) {nc.get('function')} {nc.get('obligation', '')} {nc.get('reason')}")
     for key, why, tr in checker_errors:
         out_lines.append(f"CHECKER-ERROR {key}: {why}")
         if tr:
@@ -171,6 +185,7 @@ def finish(args, P, results, bounded, known, ax_n, t0, seed):
         "bounded_stand_ins": [{k: v for k, v in b.items() if k not in ("violations", "trace")} for b in bounded],
         "builtin_axiom_instances_checked": ax_n,
         "explanation": P.explanation,
+        "thorough_targets_not_completed": not_completed,
         "proof_targets_of_the_thorough_tier_only": (list(getattr(P, "prove_thorough", [])) if args.tier == "quick" else []),
     }
     # exploration-style counters for bounded parts (measured)
